@@ -263,8 +263,9 @@ QUICK = [
     dict(wf="chain", backend="sge", accounting=True, hashing=False, sels=(None,), depth=1),
     dict(wf="fork", backend="lsf", accounting=True, hashing=True, sels=(None,), depth=1),
 ]
-THOROUGH = [dict(wf=wf, backend=be, accounting=acct, hashing=h, sels=(None, ["B"], ["C"]), depth=2)
+THOROUGH = [dict(wf=wf, backend=be, accounting=acct, hashing=h, sels=(None, ["B"], ["C"]), depth=1)
             for wf in ("fork", "chain") for be, acct in (("slurm", True), ("slurm", False), ("sge", True), ("lsf", True)) for h in (False, True)] + \
+           [dict(wf="fork", backend=be, accounting=True, hashing=False, sels=(None,), depth=2, quick_items=True) for be in ("slurm", "lsf")] + \
            [dict(wf="diamond", backend=be, accounting=True, hashing=False, sels=(None, ["D"]), depth=1, quick_items=True) for be in ("slurm", "sge", "lsf")]
 
 
